@@ -151,6 +151,18 @@ input I @foo { "f" x: Int = 1 @foo y: E = A l: [Float] = 1 d: Date = "2020-01-01
     out.append(_case([_sdl('"t\\\\"\ntype Query {\n  "f\\\\"\n  a("x\\\\" b: Int): Int\n}\n"e\\\\"\nenum E { "v\\\\" A }\n'
                            '"i\\\\"\ninput I { "g\\\\" f: Int }\n"d\\\\"\ndirective @d("q\\\\" x: Int) on FIELD')],
                      [[0, DEFAULT], [0, _opts(indent=2)], [0, _opts(indent="\t")]], "description-trailing-backslash"))
+    # seeded C12-i: the schema definition may only be omitted when EVERY slot is what the default names give: a root
+    # under the default name of another operation whose own slot is empty needs the explicit block
+    out.append(_case([_sdl("schema { query: Query subscription: Mutation }\ntype Query { a: Int }\ntype Mutation { b: Int }")],
+                     [[0, DEFAULT], [0, _opts(indent=2)]], "roots-under-other-default-names"))
+    out.append(_case([_sdl("schema { query: Query mutation: Subscription }\ntype Query { a: Int }\ntype Subscription { b: Int }")],
+                     [[0, DEFAULT]], "roots-under-other-default-names"))
+    out.append(_case([_sdl("schema { query: Query mutation: Subscription subscription: Mutation }\ntype Query { a: Int }\n"
+                           "type Subscription { b: Int }\ntype Mutation { c: Int }")],
+                     [[0, DEFAULT]], "roots-under-other-default-names"))
+    out.append(_case([_sdl("schema { query: Mutation }\ntype Mutation { a: Int }\ntype Query { b: Int }"),
+                      _sdl("schema { query: Subscription mutation: Query }\ntype Subscription { a: Int }\ntype Query { b: Int }")],
+                     [[0, DEFAULT], [1, DEFAULT]], "roots-under-other-default-names"))
     # seeded C12-h: a deprecation reason is a String value printed by the value printer: characters above U+FFFF
     # stay one character (no surrogate-pair escapes), other non-ASCII / control characters as the value printer has them
     out.append(_case([_sdl('type Query {\n  a: Int @deprecated(reason: "rocket \U0001F680")\n'
